@@ -44,6 +44,7 @@ type SelectRecord struct {
 	Hints      storage.SelectHints
 	HasHints   bool
 	Matchers   []string
+	Raw        []*labels.Matcher
 	Sorted     bool
 }
 
@@ -222,7 +223,7 @@ func matcherStrings(ms []*labels.Matcher) []string {
 
 func (q *querier) Select(sorted bool, hints *storage.SelectHints, ms ...*labels.Matcher) storage.SeriesSet {
 	k := q.s.hit("select", q.ctx)
-	rec := SelectRecord{Mint: q.mint, Maxt: q.maxt, Matchers: matcherStrings(ms), Sorted: sorted}
+	rec := SelectRecord{Mint: q.mint, Maxt: q.maxt, Matchers: matcherStrings(ms), Raw: append([]*labels.Matcher(nil), ms...), Sorted: sorted}
 	if hints != nil {
 		rec.Hints = *hints
 		rec.Hints.Grouping = append([]string(nil), hints.Grouping...)
